@@ -18,5 +18,6 @@ MONITORS = {
     "C14": ["monitors.c14"],
     "C15": ["monitors.c15"],
     "C16": ["monitors.c16"],
+    "C19": ["monitors.c19"],
     "C20": ["monitors.c20"],
 }
